@@ -48,6 +48,9 @@ C(n) == [k |-> "c", n |-> n]        \* constant
 V(n) == [k |-> "v", n |-> n]        \* last received value + n
 I(n) == [k |-> "i", n |-> n]        \* innermost loop index + n
 A(n) == [k |-> "a", n |-> n]        \* goroutine argument + n
+AY(n) == [k |-> "ay", n |-> n]      \* the same value, computed by a call that yields the processor
+                                    \* (no difference here: the operands of a select are
+                                    \* evaluated once, on entering it, by the goroutine itself)
 T(n) == [k |-> "t", n |-> n]        \* last loaded value + n
 OKV  == [k |-> "ok", n |-> 0]       \* 1 if the last comma-ok receive had ok, else 0
 
@@ -387,6 +390,17 @@ TWorkerPool(w, j, k) ==
           P(<< WgWait(1), Close(2) >>) >>
        \o Rep(w, PD(<< Range(1, << Send(2, V(100)) >>) >>, << WgDone(1) >>)))
 
+(* w goroutines started by ONE go statement in a loop execute the same select statement, each
+   with its own operands: worker a sends its argument (computed by a yielding call) on ITS
+   channel a (form "bya": the source text says cx[a]).  No goroutine may see the channel or
+   the value of another: channel j receives j *)
+CaseSA(c, v) == [dir |-> "send", ch |-> c, val |-> v, form |-> "bya", body |-> <<>>]
+TSelWorkers(w, k) ==
+  Prog("selworkers", <<w, k>>, [j \in 1..w |-> 1 + k], 0, 1, 0,
+       << P(<< WgAdd(1, w), For(w, << GoI(2, I(1)) >>), WgWait(1) >>
+            \o Cat([j \in 1..w |-> << Recv(j, "v"), Log(V(100 * j)) >>])) >>
+       \o [j \in 1..w |-> PD(<< Select(<< CaseSA(j, AY(0)) >>) >>, << WgDone(1) >>)])
+
 (* quit channel: the consumer leaves when done is closed, possibly before draining *)
 TQuit(n, k) ==
   Prog("quit", <<n, k>>, <<k, 0, 0>>, 0, 0, 0,
@@ -429,6 +443,7 @@ Progs ==
          SeqOf((2..Hi(2, 3)) \X (1..Hi(2, 3)), LAMBDA x : TSemaphore(x[1], x[2])),
          SeqOf(0..1, LAMBDA x : TMutexHandoff(x)),
          SeqOf((2..Hi(2, 3)) \X (1..Hi(2, 3)) \X (0..1), LAMBDA x : TWorkerPool(x[1], x[2], x[3])),
+         SeqOf((2..Hi(2, 3)) \X (0..1), LAMBDA x : TSelWorkers(x[1], x[2])),
          SeqOf((1..Hi(2, 3)) \X (0..2), LAMBDA x : TQuit(x[1], x[2])),
          SeqOf(2..Hi(3, 4), LAMBDA x : TMutexDefer(x)),
          SeqOf((0..2) \X (0..2), LAMBDA x : TBufferFill(x[1], x[2])) >>)
@@ -476,6 +491,7 @@ Eval(s, p, e) ==
   CASE e.k = "c" -> e.n
     [] e.k = "v" -> s.regs[p].v + e.n
     [] e.k = "a" -> s.regs[p].a + e.n
+    [] e.k = "ay" -> s.regs[p].a + e.n
     [] e.k = "t" -> s.regs[p].t + e.n
     [] e.k = "ok" -> IF s.regs[p].ok THEN 1 ELSE 0
     [] OTHER -> e.n
